@@ -376,11 +376,15 @@ def playersFor (players : Option (List Nat)) (fromP : Nat) (gaia : Bool) : List 
   let l := if gaia && !l.contains 0 then l ++ [0] else l
   l.filter (fun p => p != fromP)
 
-/-- `d[k] = v` on an insertion-ordered dict -/
-def dictSet {α : Type} (d : List (Nat × α)) (k : Nat) (v : α) : List (Nat × α) :=
-  if d.any (fun kv => kv.1 == k) then d.map (fun kv => if kv.1 == k then (k, v) else kv) else d ++ [(k, v)]
+/-- `d[k] = v` on an insertion-ordered dict (keys are unique: an existing key keeps its place) -/
+def dictSet {α : Type} : List (Nat × α) → Nat → α → List (Nat × α)
+  | [], k, v => [(k, v)]
+  | (a, b) :: d, k, v => if a = k then (k, v) :: d else (a, b) :: dictSet d k v
 
-def dictGet {α : Type} (d : List (Nat × α)) (k : Nat) : Option α := (d.find? (fun kv => kv.1 == k)).map (·.2)
+/-- `d.get(k)` -/
+def dictGet {α : Type} : List (Nat × α) → Nat → Option α
+  | [], _ => none
+  | (a, b) :: d, k => if a = k then some b else dictGet d k
 
 /-- the copy loop of `copy_trigger_per_player`; the result dict maps player ↦ copy (as appended) -/
 def copyPlayers (tm : TM) (src : Trig) : List Nat → List (Nat × Trig) → Except Err (TM × List (Nat × Trig))
